@@ -22,4 +22,5 @@ var Registry = map[string]func(Args) error{
 	"robust":      Robust,
 	"sctp":        SCTP,
 	"sctpanswer":  SCTPAnswer,
+	"marshal":     Marshal,
 }
